@@ -63,7 +63,7 @@ Print Assumptions C01_unclearing_free_refuted.
     whose candidates lie inside their segment; the statement without that
     hypothesis ([TotalProofs.core_total_full]) is refuted
     ([C01_core_total_needs_candidate_shape]).  The earlier partial theorems are kept: *)
-From RimeV Require Eng.Api Eng.Ctx Eng.Engine Eng.Oracle Eng.Spec Eng.CommitProofs Eng.TotalFull Eng.TotalProofs Eng.PunctProofs.
+From RimeV Require Eng.Api Eng.Ctx Eng.Engine Eng.Oracle Eng.Spec Eng.CommitProofs Eng.TotalFull Eng.TotalProofs Eng.PunctProofs Eng.KbProofs Eng.WfProofs Eng.Procs.
 
 (** for EVERY history of API operations with arbitrary arguments (keys with any
     code/mask, indices up to SIZE_MAX, carets beyond the end, options, …), any
@@ -107,6 +107,7 @@ Print Assumptions C01_core_total_edit_keys.
 Theorem C01_core_total_except_substr :
   forall cfg translate, RimeV.Eng.TotalProofs.total_hyps cfg translate ->
   RimeV.Eng.Engine.cf_hist_guard cfg = true ->
+  RimeV.Eng.Engine.cf_kb_guard cfg = true ->
   (forall i s c, List.In c (translate i s) -> RimeV.Eng.Cand.si_start s <= RimeV.Eng.Cand.c_end c) ->
   forall ops, List.Forall RimeV.Eng.WfProofs.obs_only_substr (snd (RimeV.Eng.Api.run cfg translate ops)).
 Proof. exact RimeV.Eng.TotalProofs.core_total_except_substr. Qed.
@@ -128,7 +129,8 @@ Print Assumptions C01_core_total_except_substr.
     the one raw segment with a stale length that OnSelect can cut short.) *)
 (** Round 3: [plain_chain cfg] = segmentors [abc_segmentor, fallback_segmentor], no punctuator
     among the processors (these were ALL configurations of the model when the theorem was
-    first proved), and the source fact about CommitHistory::Push.  For chains with
+    first proved; the key binder with ANY binding table is allowed), and the two source facts
+    (CommitHistory::Push resets [last]; KeyBinder replays with redirecting_ set).  For chains with
     punct_segmentor the statement is false as it stands ([C01_punct_chain_stale_menu]). *)
 Theorem C01_core_total :
   forall cfg translate, RimeV.Eng.TotalProofs.total_hyps cfg translate ->
@@ -164,7 +166,7 @@ Print Assumptions C01_core_total_needs_candidate_shape.
     (x space) x 21, a, commit_composition` dereferences a popped record
     (replays/eng-commit-history-dangling-last.txt: heap-use-after-free under ASan) *)
 Theorem C01_commit_history_dangling :
-  let cfg := RimeV.Eng.Oracle.synth_cfg_gen true true true false in
+  let cfg := RimeV.Eng.Oracle.synth_cfg_gen true true true true false in
   RimeV.Eng.TotalProofs.total_hyps cfg RimeV.Eng.Oracle.oracle_translate /\
   RimeV.Eng.TotalFull.cands_fit RimeV.Eng.Oracle.oracle_translate /\
   RimeV.Eng.Engine.cf_segmentors cfg = (RimeV.Eng.Engine.SgAbc :: RimeV.Eng.Engine.SgFallback :: nil)%list /\
@@ -186,7 +188,7 @@ Print Assumptions C01_commit_history_guard_in_source.
     stale menu and GetPreedit throws std::out_of_range
     (replays/eng-stale-raw-menu-after-shape-toggle.txt, confirmed on the real code) *)
 Theorem C01_punct_chain_stale_menu :
-  let cfg := RimeV.Eng.Oracle.synth_punct_cfg_gen true true true true in
+  let cfg := RimeV.Eng.Oracle.synth_punct_cfg_gen true true true true true in
   RimeV.Eng.TotalProofs.total_hyps cfg (RimeV.Eng.Oracle.synth_translate cfg) /\
   RimeV.Eng.Engine.cf_hist_guard cfg = true /\
   RimeV.Eng.PunctProofs.cands_fit_seg (RimeV.Eng.Oracle.synth_translate cfg) /\
@@ -207,3 +209,57 @@ Theorem C01_core_total_partial_synth_punct :
                               (RimeV.Eng.Oracle.synth_translate (RimeV.Eng.Oracle.synth_punct_cfg fluid dlog)) ops)).
 Proof. exact RimeV.Eng.PunctProofs.core_total_partial_synth_punct. Qed.
 Print Assumptions C01_core_total_partial_synth_punct.
+
+(** ---- round 3, stage 3: the key binder ---- *)
+(** source fact (gen/eng_facts.py, re-read on every run): KeyBinder::ProcessKeyEvent declines every
+    key while redirecting_ is set and PerformKeyBinding sets it around the replay loop *)
+Theorem C01_key_binder_guard_in_source : RimeV.Eng.Oracle.kb_guard_in_source = true.
+Proof. reflexivity. Qed.
+Print Assumptions C01_key_binder_guard_in_source.
+
+(** termination of the redirect: with that fact, for EVERY configuration (any binding table:
+    self-sending, cyclic, chained bindings) a key event nests ProcessKey exactly once – the replay
+    runs in a chain where the key binder declines everything – so any nesting fuel >= 1 gives the
+    same result (no unbounded recursion) *)
+Theorem C01_key_binder_replay_depth :
+  forall cfg translate, RimeV.Eng.Engine.cf_kb_guard cfg = true ->
+  forall fuel s k,
+    RimeV.Eng.Procs.process_key_n cfg translate (S fuel) false s k =
+    RimeV.Eng.Procs.process_key_gen cfg translate
+      (RimeV.Eng.Procs.key_binder_process cfg translate (Some (RimeV.Eng.KbProofs.process_key_replayed cfg translate)) false) s k.
+Proof. exact RimeV.Eng.KbProofs.kb_replay_depth. Qed.
+Print Assumptions C01_key_binder_replay_depth.
+
+(** ... and no history of API operations ever reports the nesting error (nor a null dereference
+    or an invalid page range; the dangling commit-history pointer only without its own guard) *)
+Theorem C01_crash_kinds :
+  forall cfg translate, RimeV.Eng.TotalProofs.total_hyps cfg translate ->
+  forall ops, List.Forall (RimeV.Eng.WfProofs.crash_kind_ok cfg) (snd (RimeV.Eng.Api.run cfg translate ops)).
+Proof. intros cfg translate (H1 & H2 & H3). exact (RimeV.Eng.WfProofs.crash_kinds cfg translate H1 H2 H3). Qed.
+Print Assumptions C01_crash_kinds.
+
+(** the source shape WITHOUT the flag: the self-sending binding Control+s -> Control+s of the synthetic
+    table uses up every nesting depth of the model (the C++ recurses until the stack is exhausted) *)
+Theorem C01_key_binder_unguarded_recursion :
+  let cfg := RimeV.Eng.Oracle.synth_kb_cfg_gen true true true false true in
+  snd (RimeV.Eng.Api.run cfg (RimeV.Eng.Oracle.synth_translate cfg) RimeV.Eng.KbProofs.kb_selfsend_ops)
+  = (RimeV.Eng.Api.ObsCrash RimeV.Eng.Ctx.ErrRecursion :: nil)%list.
+Proof. exact RimeV.Eng.KbProofs.kb_unguarded_recursion. Qed.
+Print Assumptions C01_key_binder_unguarded_recursion.
+
+(** FULL totality with a key binder: the synthetic binding table over the plain chain *)
+Theorem C01_core_total_synth_kbplain :
+  forall fluid dlog ops,
+    List.forallb RimeV.Eng.CommitProofs.not_crash
+      (snd (RimeV.Eng.Api.run (RimeV.Eng.Oracle.synth_kbplain_cfg fluid dlog) RimeV.Eng.Oracle.oracle_translate ops)) = true.
+Proof. exact RimeV.Eng.KbProofs.core_total_synth_kbplain. Qed.
+Print Assumptions C01_core_total_synth_kbplain.
+
+(** PARTIAL for the stock-like chain (key_binder + punctuator components): the crash kinds above *)
+Theorem C01_crash_kinds_synth_kb :
+  forall fluid dlog ops,
+    List.Forall (RimeV.Eng.WfProofs.crash_kind_ok (RimeV.Eng.Oracle.synth_kb_cfg fluid dlog))
+      (snd (RimeV.Eng.Api.run (RimeV.Eng.Oracle.synth_kb_cfg fluid dlog)
+                              (RimeV.Eng.Oracle.synth_translate (RimeV.Eng.Oracle.synth_kb_cfg fluid dlog)) ops)).
+Proof. exact RimeV.Eng.KbProofs.crash_kinds_synth_kb. Qed.
+Print Assumptions C01_crash_kinds_synth_kb.
